@@ -1,7 +1,7 @@
 (* Correspondence cases for C07: fee calculator vs VM cost per signer shape, the fee boundary, the
    admission decision on transactions valid / invalid in chosen respects, and block packing. *)
 From NG Require Import Common.Tactics Common.HarnessLib.
-From NG Require Export Admission.Fee Admission.Admit Admission.Conflicts Mempool.Model Mempool.Spec.
+From NG Require Export Admission.Fee Admission.Admit Admission.Conflicts Admission.Refresh Mempool.Model Mempool.Spec.
 Open Scope N_scope.
 
 (* a witness as the harness made it: signer shape, verification script hashes to the signer, signatures good *)
@@ -21,6 +21,11 @@ Inductive case :=
     (* on-chain transactions (block index, signers, hashes named in Conflicts) in chain order; then the transaction
        with hash h and these signers is submitted at height c_height; its conflict-on-chain fact comes from the
        record table model, everything else about it is in order *)
+| CRefresh (vub : N) (heights : list N) (wits : list (N * list bool)) (ops : list (bool * bool))
+    (* one transaction over a run of chain states 0, 1, ...: heights.[k]; per witness its kind (0 standard,
+       1 own non-standard script, 2 deployed contract) and whether it verifies in state k (known by construction);
+       ops in order: (true, _) = a block was accepted (next state), (false, _) = the transaction was submitted;
+       second component: is it in the pool afterwards *)
 | CPack (maxtx : nat) (maxsize maxsysfee hdr real_hdr : N) (pool : list tx) (bal : list (payer * N)) (k : nat).
     (* GetVerifiedTransactions (ids = positions, signers = account numbers, Conflicts = position of the named
        pooled transaction or a foreign id) with the senders' GAS balances on chain; ApplyPolicyToTxSet kept the
@@ -80,6 +85,27 @@ Definition check_admit (base : N) (ch : chainfacts) (t : txfacts) (ws : list hwi
       let spec := admissibleb ch t' && match fst (add fixed_cfg (bal_of bal) s0 x) with ROk => true | _ => false end in
       code_of (option_eqb N.eqb model impl) (Bool.eqb spec accepted).
 
+Definition kind_of (k : N) : wkind := if k =? 0 then WStandard else if k =? 1 then WScript else WContract.
+Definition mk_ptx (vub : N) (wits : list (N * list bool)) : ptx nat :=
+  mkPtx nat vub (map (fun w : N * list bool => mkWit nat (kind_of (fst w)) (fun k => nth k (snd w) false)) wits) (fun _ => true).
+
+Fixpoint refresh_run (hs : list N) (t : ptx nat) (c : nat * list (ptx nat)) (ops : list (bool * bool)) : bool * bool :=
+  (* (model agrees, specification holds) *)
+  match ops with
+  | [] => (true, true)
+  | (is_block, pooled) :: r =>
+      let h := fun k => nth k hs 0 in
+      let was := match snd c with [] => false | _ => true end in
+      let c' := if is_block then pstep nat h true c (PBlock nat (S (fst c)))
+                else if was then c else pstep nat h true c (PSubmit nat t) in
+      let now := match snd c' with [] => false | _ => true end in
+      let valid := wits_ok nat (fst c') t in
+      let spec := (negb pooled || valid)                                        (* a pooled transaction's witnesses verify *)
+                  && (is_block || was || Bool.eqb pooled (admissible_in nat h (fst c') t)) in   (* submitted: in iff valid *)
+      let '(m, s) := refresh_run hs t c' r in
+      (Bool.eqb now pooled && m, spec && s)
+  end.
+
 Definition check_case (c : case) : N :=
   match c with
   | CShape base s inv ver verif_len calc_fee_impl calc_size_impl vm_gas wit_size =>
@@ -102,6 +128,9 @@ Definition check_case (c : case) : N :=
       if Bool.eqb m (conflict_spec es h signers (c_height ch) mtb) then
         check_admit base ch (with_conflict t m) ws [] x bal impl
       else 3
+  | CRefresh vub heights wits ops =>
+      let '(m, sp) := refresh_run heights (mk_ptx vub wits) (O, []) ops in
+      code_of m sp
   | CPack maxtx maxsize maxsysfee hdr real_hdr l bal k =>
       let b := apply_policy maxtx maxsize maxsysfee (fun _ => hdr) l in
       let sel := firstn k l in
